@@ -638,3 +638,404 @@ Section Loop.
     intros c' st' Hin' Hst'. apply in_map_iff in Hin'. destruct Hin' as [x [Hx _]]. inversion Hx. congruence.
   Qed.
 End Loop.
+
+Lemma forallb_ext_in' : forall (A : Type) (f g : A -> bool) l,
+    (forall x, In x l -> f x = g x) -> forallb f l = forallb g l.
+Proof.
+  intros A f g l. induction l as [|x r IH]; intros H; simpl; [reflexivity|].
+  rewrite (H x (or_introl eq_refl)), IH; [reflexivity|]. intros y Hy. apply H. right. exact Hy.
+Qed.
+
+(** * Frame: a call of [c] changes items of [c]'s own slots only *)
+Section Frame.
+  Variable sp : spec.
+  Variable c : comp.
+  Variable a : args.
+
+  Lemma frame_wi : forall w i, mem i (c_ins c) = false -> wi (fst (helper_connect sp c a w)) i = wi w i.
+  Proof.
+    intros w i H. unfold helper_connect. cbn [fst].
+    rewrite pl_wi, H. cbn [andb].
+    change (wi (phase_pushdata sp c ?x) i) with (wi x i).
+    unfold phase_pushdata, phase_pushinfo, phase_outinfo. cbn [wi].
+    rewrite ex_wi, H. cbn [andb]. rewrite cache_wi, H. reflexivity.
+  Qed.
+
+  Lemma frame_wo : forall w o, mem o (c_outs c) = false ->
+      let st := wo w o in let st' := wo (fst (helper_connect sp c a w)) o in
+      o_hinfo st' = o_hinfo st /\ o_ipushed st' = o_ipushed st /\ o_dpushed st' = o_dpushed st.
+  Proof.
+    intros w o H. unfold helper_connect. cbn [fst].
+    change (wo (phase_pull sp c ?x) o) with (wo x o).
+    rewrite pd_wo, H. cbn [andb]. rewrite pi_wo, H. cbn [andb]. rewrite oi_wo, H. cbn [andb].
+    destruct (ex_wo_fields sp c (phase_cache sp c a w) o) as (_ & _ & _ & -> & -> & -> & _).
+    rewrite cache_wo, H. repeat split; reflexivity.
+  Qed.
+
+  Lemma all_done_frame : forall c2 w,
+      (forall i, In i (c_ins c2) -> mem i (c_ins c) = false) ->
+      (forall o, In o (c_outs c2) -> mem o (c_outs c) = false) ->
+      all_done sp c2 (fst (helper_connect sp c a w)) = all_done sp c2 w.
+  Proof.
+    intros c2 w HI HO. unfold all_done. f_equal.
+    - apply forallb_ext_in'. intros i Hin. rewrite (frame_wi w i (HI i Hin)). reflexivity.
+    - apply forallb_ext_in'. intros o Hin. destruct (frame_wo w o (HO o Hin)) as (-> & -> & ->). reflexivity.
+  Qed.
+End Frame.
+
+(** * The stall report lists exactly the components that did not complete *)
+Section Stall.
+  Variable sp : spec.
+
+  Definition exactF (w : world) (cs : list (comp * status)) : Prop :=
+    Forall (fun x => snd x = CONNECTED <-> all_done sp (fst x) w = true) cs.
+
+  Lemma NoDup_app_inv : forall (A : Type) (a b : list A),
+      NoDup (a ++ b) -> NoDup b /\ forall x, In x a -> ~ In x b.
+  Proof.
+    intros A a b. induction a as [|y r IH]; simpl; intros H; [split; [exact H|intros x []]|].
+    apply NoDup_cons_iff in H. destruct H as [Hn H]. destruct (IH H) as [Hb Hd]. split; [exact Hb|].
+    intros x [->|Hx]; [intros Hin; apply Hn; apply in_or_app; right; exact Hin|apply Hd; exact Hx].
+  Qed.
+
+  Lemma mem_false : forall x l, ~ In x l -> mem x l = false.
+  Proof. intros x l H. destruct (mem x l) eqn:E; [|reflexivity]. apply mem_In in E. contradiction. Qed.
+
+  Definition apart (c : comp) (r : list comp) : Prop :=
+    forall c', In c' r ->
+               (forall i, In i (c_ins c) -> mem i (c_ins c') = false)
+               /\ (forall o, In o (c_outs c) -> mem o (c_outs c') = false).
+
+  Lemma disjoint_cons : forall c r, disjoint_slots (c :: r) -> disjoint_slots r /\ apart c r.
+  Proof.
+    intros c r [HI HO]. simpl in HI, HO.
+    destruct (NoDup_app_inv _ _ _ HI) as [HI' DI]. destruct (NoDup_app_inv _ _ _ HO) as [HO' DO].
+    split; [split; assumption|]. intros c' Hc'. split.
+    - intros i Hi. apply mem_false. intros Hin. apply (DI i Hi). apply in_flat_map. exists c'. split; assumption.
+    - intros o Ho. apply mem_false. intros Hin. apply (DO o Ho). apply in_flat_map. exists c'. split; assumption.
+  Qed.
+
+  Lemma all_done_mono : forall c w w', mono w w' -> all_done sp c w = true -> all_done sp c w' = true.
+  Proof.
+    intros c w w' M H. apply all_done_spec. intros it Hin. apply M. apply (proj1 (all_done_spec sp c w) H). exact Hin.
+  Qed.
+
+  Lemma iter_frame : forall r k w c, apart c (map fst r) ->
+      all_done sp c (it_world (iter sp k r w)) = all_done sp c w.
+  Proof.
+    induction r as [|[c' st] r IH]; intros k w c HA; cbn; [reflexivity|].
+    assert (HA' : apart c (map fst r)) by (intros x Hx; apply HA; right; exact Hx).
+    destruct (HA c' (or_introl eq_refl)) as [HI HO].
+    destruct st; cbn; try (apply IH; exact HA').
+    - destruct (helper_connect sp c' (prov_args sp w) w) as [w1 st1] eqn:E; cbn. rewrite IH by exact HA'.
+      replace w1 with (fst (helper_connect sp c' (prov_args sp w) w)) by (rewrite E; reflexivity).
+      apply all_done_frame; assumption.
+    - destruct (helper_connect sp c' (prov_args sp w) w) as [w1 st1] eqn:E; cbn. rewrite IH by exact HA'.
+      replace w1 with (fst (helper_connect sp c' (prov_args sp w) w)) by (rewrite E; reflexivity).
+      apply all_done_frame; assumption.
+  Qed.
+
+  Lemma iter_exact : forall cs k w,
+      disjoint_slots (map fst cs) -> (forall c st, In (c, st) cs -> st <> INITIALIZED) -> sound sp w cs ->
+      exactF (it_world (iter sp k cs w)) (it_comps (iter sp k cs w)).
+  Proof.
+    induction cs as [|[c st] r IH]; intros k w HD HN HS; cbn; [constructor|].
+    simpl in HD. destruct (disjoint_cons _ _ HD) as [HDr HA].
+    assert (HNr : forall c' st', In (c', st') r -> st' <> INITIALIZED) by (intros c' st' Hin; apply (HN c' st'); right; exact Hin).
+    assert (HSr : sound sp w r) by (intros c' st' Hin; apply (HS c' st'); right; exact Hin).
+    destruct st; cbn.
+    - exfalso. apply (HN c INITIALIZED); [left|]; reflexivity.
+    - destruct (helper_connect sp c (prov_args sp w) w) as [w1 st1] eqn:E; cbn.
+      pose proof (progress_iff sp c (prov_args sp w) w w1 st1 E) as (M & HC & _).
+      constructor; [|apply IH; auto; eapply sound_mono; eauto]. cbn. rewrite (iter_frame r (S k) w1 c HA).
+      rewrite HC. symmetry. apply all_done_spec.
+    - destruct (helper_connect sp c (prov_args sp w) w) as [w1 st1] eqn:E; cbn.
+      pose proof (progress_iff sp c (prov_args sp w) w w1 st1 E) as (M & HC & _).
+      constructor; [|apply IH; auto; eapply sound_mono; eauto]. cbn. rewrite (iter_frame r (S k) w1 c HA).
+      rewrite HC. symmetry. apply all_done_spec.
+    - constructor; [|apply IH; auto]. cbn. rewrite (iter_frame r (S k) w c HA). split; [|reflexivity].
+      intros _. apply all_done_spec. apply (HS c CONNECTED); [left|]; reflexivity.
+  Qed.
+
+  Lemma unconnected_stuck : forall cs w k, exactF w cs -> unconnected k cs = stuck_idx sp w k (map fst cs).
+  Proof.
+    induction cs as [|[c st] r IH]; intros w k H; simpl; [reflexivity|].
+    inversion H as [|x l Hx Hl]; subst. cbn in Hx. rewrite (IH w (S k) Hl).
+    destruct (status_eqb st CONNECTED) eqn:E.
+    - apply status_eqb_eq in E. rewrite (proj1 Hx E). reflexivity.
+    - destruct (all_done sp c w) eqn:EA; [|reflexivity].
+      rewrite (proj2 Hx eq_refl) in E. discriminate.
+  Qed.
+
+  Lemma unconnected_nil : forall cs k, unconnected k cs = [] -> forall c st, In (c, st) cs -> st = CONNECTED.
+  Proof.
+    induction cs as [|[c st] r IH]; intros k H c' st' Hin; [destruct Hin|]. simpl in H.
+    destruct (status_eqb st CONNECTED) eqn:E; [|discriminate].
+    destruct Hin as [Heq|Hin]; [inversion Heq; subst; apply status_eqb_eq; exact E|eapply IH; eauto].
+  Qed.
+
+  Lemma iter_new_init : forall cs k w c, In (c, INITIALIZED) cs -> it_new (iter sp k cs w) = true.
+  Proof.
+    induction cs as [|[c0 st] r IH]; intros k w c Hin; [destruct Hin|].
+    destruct Hin as [Heq|Hin].
+    - inversion Heq; subst. reflexivity.
+    - cbn. destruct st; cbn; try (eapply IH; eauto); try reflexivity;
+        destruct (helper_connect sp c0 (prov_args sp w) w) as [w1 st1]; cbn; rewrite (IH (S k) w1 c Hin); apply orb_true_r.
+  Qed.
+
+  Lemma loop_outcome : forall fuel cs w,
+      disjoint_slots (map fst cs) -> sound sp w cs ->
+      let r := loop sp fuel cs w in
+      (r_out r = Success -> forall c st, In (c, st) (r_comps r) -> st = CONNECTED)
+      /\ (forall L, r_out r = Circular L -> L = stuck_idx sp (r_world r) 0 (map fst cs) /\ L <> []).
+  Proof.
+    induction fuel as [|f IH]; intros cs w HD HS; cbn; [split; [discriminate|intros L; discriminate]|].
+    pose proof (iter_sound sp cs 0 w HS) as HS'.
+    destruct (unconnected 0 (it_comps (iter sp 0 cs w))) as [|u0 ur] eqn:EU; cbn.
+    - split; [|intros L; discriminate]. intros _. eapply unconnected_nil; eauto.
+    - destruct (it_new (iter sp 0 cs w)) eqn:EN; cbn.
+      + assert (HD' : disjoint_slots (map fst (it_comps (iter sp 0 cs w)))) by (rewrite iter_fst; exact HD).
+        destruct (IH _ _ HD' HS') as [H1 H2]. split; [exact H1|].
+        intros L HL. rewrite <- (iter_fst sp cs 0 w). apply H2. exact HL.
+      + split; [discriminate|]. intros L HL. injection HL as <-. split; [|discriminate].
+        rewrite <- EU. rewrite <- (iter_fst sp cs 0 w). apply unconnected_stuck. apply iter_exact; auto.
+        intros c st Hin ->. rewrite (iter_new_init cs 0 w c Hin) in EN. discriminate.
+  Qed.
+
+  (** C06_stall_set *)
+  Lemma run_stall_set : forall cs,
+      disjoint_slots cs ->
+      let r := connect_run sp cs in
+      (r_out r = Success -> forall c, In c cs -> forall it, In it (declared sp c) -> done (r_world r) it = true)
+      /\ (forall L, r_out r = Circular L -> L = stuck_idx sp (r_world r) 0 cs /\ L <> []).
+  Proof.
+    intros cs HD r.
+    assert (Hm : map fst (map (fun c => (c, INITIALIZED)) cs) = cs) by (rewrite map_map; simpl; apply map_id).
+    assert (HS : sound sp (init_world sp) (map (fun c => (c, INITIALIZED)) cs)).
+    { intros c st Hin Hst. apply in_map_iff in Hin. destruct Hin as [x [Hx _]]. inversion Hx. congruence. }
+    destruct (loop_outcome (enough_fuel sp cs) (map (fun c => (c, INITIALIZED)) cs) (init_world sp)) as [H1 H2];
+      [rewrite Hm; exact HD|exact HS|].
+    fold (connect_run sp cs) in H1, H2. fold r in H1, H2. rewrite Hm in H2. split; [|exact H2].
+    intros Hs c Hc it Hit.
+    assert (Hin : In c (map fst (r_comps r))) by (unfold r, connect_run; rewrite loop_fst, Hm; exact Hc).
+    apply in_map_iff in Hin. destruct Hin as [[c' st] [Hf Hin]]. simpl in Hf. subst c'.
+    eapply (run_sound sp cs c st); eauto.
+  Qed.
+
+  Lemma stuck_idx_spec : forall w cs k n,
+      In n (stuck_idx sp w k cs) <-> exists c, nth_error cs (n - k) = Some c /\ k <= n /\ all_done sp c w = false.
+  Proof.
+    intros w cs. induction cs as [|c r IH]; intros k n; simpl.
+    - split; [intros []|]. intros [c [H _]]. destruct (n - k); discriminate.
+    - destruct (all_done sp c w) eqn:E.
+      + rewrite IH. split.
+        * intros [c' [Hn [Hk Hd]]]. exists c'. replace (n - k) with (S (n - S k)) by lia. simpl. repeat split; auto; lia.
+        * intros [c' [Hn [Hk Hd]]]. destruct (n - k) as [|m] eqn:Em; simpl in Hn; [inversion Hn; congruence|].
+          exists c'. replace (n - S k) with m by lia. repeat split; auto; lia.
+      + simpl. rewrite IH. split.
+        * intros [<-|[c' [Hn [Hk Hd]]]].
+          -- exists c. rewrite Nat.sub_diag. simpl. auto.
+          -- exists c'. replace (n - k) with (S (n - S k)) by lia. simpl. repeat split; auto; lia.
+        * intros [c' [Hn [Hk Hd]]]. destruct (n - k) as [|m] eqn:Em; simpl in Hn.
+          -- left. lia.
+          -- right. exists c'. replace (n - S k) with m by lia. repeat split; auto; lia.
+  Qed.
+End Stall.
+
+(** * Initial data: what is published and what is pulled *)
+Section InitData.
+  Variable sp : spec.
+
+  Definition payload_of (o : nat) (p : nat) : Prop := exists ds, os_prov_data (sp_out sp o) = Some (ds, p).
+
+  Definition args_ok (a : args) : Prop := forall o p, a_pd a o = Some p -> payload_of o p.
+
+  Definition data_inv (w : world) : Prop :=
+    (forall o p, o_dcache (wo w o) = Some p -> payload_of o p)
+    /\ (forall o, o_dpushed (wo w o) = false -> o_data (wo w o) = [])
+    /\ (forall o, o_dpushed (wo w o) = true ->
+                  exists t p, o_hinfo (wo w o) = Some t /\ payload_of o p /\ o_data (wo w o) = pushed_entries sp o t p)
+    /\ (forall i p, in_data (wi w i) = Some p -> payload_of (is_src (sp_in sp i)) p).
+
+  Lemma prov_args_ok : forall w, args_ok (prov_args sp w).
+  Proof.
+    intros w o p H. unfold prov_args in H. simpl in H.
+    destruct (os_prov_data (sp_out sp o)) as [[ds q]|] eqn:E; [|discriminate].
+    destruct (deps_ok w ds); [|discriminate]. injection H as <-. exists ds. exact E.
+  Qed.
+
+  Lemma init_data_inv : data_inv (init_world sp).
+  Proof. repeat split; simpl; intros; try discriminate; reflexivity. Qed.
+
+  Lemma interp_payload : forall p l prev time d,
+      (forall e, In e l -> snd e = p) -> (forall x, prev = Some x -> snd x = p) ->
+      interp_loop prev l time = Some d -> d = p.
+  Proof.
+    intros p l. induction l as [|[[t|] q] r IH]; intros prev time d Hl Hp H; simpl in H; try discriminate.
+    assert (Hq : q = p) by (apply (Hl (Some t, q)); left; reflexivity).
+    destruct (t <? time)%Z.
+    - eapply IH; [| |exact H]; [intros e He; apply Hl; right; exact He|intros x Hx; injection Hx as <-; exact Hq].
+    - destruct (time =? t)%Z; [injection H as <-; exact Hq|].
+      destruct prev as [[tp dp]|]; [|discriminate]. specialize (Hp _ eq_refl). simpl in Hp.
+      destruct (time - tp <? t - time)%Z; injection H as <-; assumption.
+  Qed.
+
+  Lemma pushed_entries_payload : forall o t p e, In e (pushed_entries sp o t p) -> snd e = p.
+  Proof.
+    intros o t p e H. unfold pushed_entries in H.
+    destruct (nconn sp o =? 0); [destruct H|]. destruct (os_static (sp_out sp o)); [destruct H as [<-|[]]; reflexivity|].
+    destruct (t =? sp_start sp)%Z; simpl in H; intuition (subst; reflexivity).
+  Qed.
+
+  Lemma get_data_payload : forall w o d, data_inv w -> get_data sp w o = Some d -> payload_of o d.
+  Proof.
+    intros w o d (J1 & J2 & J3 & J4) H. unfold get_data in H.
+    destruct (negb (is_some (o_info (wo w o)))); [discriminate|].
+    destruct (o_exch (wo w o) <? nconn sp o); [discriminate|].
+    destruct (o_dpushed (wo w o)) eqn:ED.
+    - destruct (J3 o ED) as (t & p & Ht & Hp & Hd). rewrite Hd in H.
+      destruct (pushed_entries sp o t p) as [|[t0 d0] r] eqn:EP; [discriminate|].
+      assert (HP : forall e, In e ((t0, d0) :: r) -> snd e = p) by (rewrite <- EP; apply pushed_entries_payload).
+      destruct (os_static (sp_out sp o)).
+      + injection H as <-. rewrite (HP (t0, d0) (or_introl eq_refl) : d0 = p). exact Hp.
+      + rewrite (interp_payload p _ None _ d HP) by (try exact H; intros x Hx; discriminate). exact Hp.
+    - rewrite (J2 o ED) in H. discriminate.
+  Qed.
+
+  Lemma call_data_inv : forall c a w, args_ok a -> data_inv w -> data_inv (fst (helper_connect sp c a w)).
+  Proof.
+    intros c a w HA HI. unfold helper_connect. cbn [fst].
+    set (w1 := phase_cache sp c a w).
+    assert (H1 : data_inv w1).
+    { destruct HI as (J1 & J2 & J3 & J4). unfold w1. repeat split.
+      - intros o p. rewrite cache_wo. destruct (mem o (c_outs c)); [|apply J1]. cbn.
+        unfold upd_cache, pd_eff. destruct (c_cache c).
+        + destruct (o_dpushed (wo w o)); [apply J1|]. destruct (a_pd a o) as [q|] eqn:EA; [|apply J1].
+          intros Hq. injection Hq as <-. apply HA. exact EA.
+        + destruct (o_dpushed (wo w o)); [discriminate|]. apply HA.
+      - intros o. rewrite cache_wo. destruct (mem o (c_outs c)); cbn; apply J2.
+      - intros o. rewrite cache_wo. destruct (mem o (c_outs c)); cbn; apply J3.
+      - intros i p. rewrite cache_wi. destruct (mem i (c_ins c)); cbn; apply J4. }
+    set (w2 := phase_exchange sp c w1).
+    assert (H2 : data_inv w2).
+    { destruct H1 as (J1 & J2 & J3 & J4). unfold w2. repeat split.
+      - intros o. destruct (ex_wo_fields sp c w1 o) as (_ & _ & _ & _ & _ & _ & _ & ->). apply J1.
+      - intros o. destruct (ex_wo_fields sp c w1 o) as (_ & _ & -> & _ & _ & -> & _). apply J2.
+      - intros o. destruct (ex_wo_fields sp c w1 o) as (_ & _ & -> & -> & _ & -> & _). apply J3.
+      - intros i p. rewrite ex_wi. destruct (mem i (c_ins c) && fires_ex sp w1 i); cbn; apply J4. }
+    set (w3 := phase_outinfo sp c w2).
+    assert (H3 : data_inv w3).
+    { destruct H2 as (J1 & J2 & J3 & J4). unfold w3. repeat split.
+      - intros o. rewrite oi_wo. destruct (mem o (c_outs c) && fires_oi sp w2 o); cbn; apply J1.
+      - intros o. rewrite oi_wo. destruct (mem o (c_outs c) && fires_oi sp w2 o); cbn; apply J2.
+      - intros o. rewrite oi_wo. destruct (mem o (c_outs c) && fires_oi sp w2 o) eqn:E; cbn; [|apply J3].
+        intros Hd. destruct (J3 o Hd) as (t & p & Ht & _). apply andb_true_iff in E. destruct E as [_ E].
+        unfold fires_oi in E. rewrite Ht in E. discriminate.
+      - exact J4. }
+    set (w4 := phase_pushinfo c w3).
+    assert (H4 : data_inv w4).
+    { destruct H3 as (J1 & J2 & J3 & J4). unfold w4. repeat split.
+      - intros o. rewrite pi_wo. destruct (mem o (c_outs c) && fires_pi w3 o); cbn; apply J1.
+      - intros o. rewrite pi_wo. destruct (mem o (c_outs c) && fires_pi w3 o); cbn; apply J2.
+      - intros o. rewrite pi_wo. destruct (mem o (c_outs c) && fires_pi w3 o); cbn; apply J3.
+      - exact J4. }
+    set (w5 := phase_pushdata sp c w4).
+    assert (H5 : data_inv w5).
+    { destruct H4 as (J1 & J2 & J3 & J4). unfold w5. repeat split.
+      - intros o p. rewrite pd_wo. destruct (mem o (c_outs c) && fires_pd w4 o) eqn:E; [|apply J1]. cbn.
+        apply andb_true_iff in E. destruct E as [_ E]. destruct (fires_pd_inv _ _ E) as (_ & [q Hq] & _ & [t Ht]).
+        rewrite Hq, Ht. cbn. discriminate.
+      - intros o. rewrite pd_wo. destruct (mem o (c_outs c) && fires_pd w4 o) eqn:E; [|apply J2]. cbn.
+        apply andb_true_iff in E. destruct E as [_ E]. destruct (fires_pd_inv _ _ E) as (_ & [q Hq] & _ & [t Ht]).
+        rewrite Hq, Ht. cbn. discriminate.
+      - intros o. rewrite pd_wo. destruct (mem o (c_outs c) && fires_pd w4 o) eqn:E; [|apply J3]. cbn.
+        apply andb_true_iff in E. destruct E as [_ E]. destruct (fires_pd_inv _ _ E) as (Hd & [q Hq] & _ & [t Ht]).
+        rewrite Hq, Ht. cbn. intros _. exists t, q. rewrite (J2 o Hd). repeat split; auto.
+      - exact J4. }
+    destruct H5 as (J1 & J2 & J3 & J4). repeat split; try assumption.
+    intros i p. rewrite pl_wi. destruct (mem i (c_ins c) && fires_pl sp w5 i) eqn:E; [|apply J4]. cbn.
+    intros Hg. eapply get_data_payload; [|exact Hg]. repeat split; assumption.
+  Qed.
+
+  Lemma iter_data_inv : forall cs k w, data_inv w -> data_inv (it_world (iter sp k cs w)).
+  Proof.
+    induction cs as [|[c st] r IH]; intros k w H; cbn; [exact H|].
+    assert (HC : data_inv (fst (helper_connect sp c (prov_args sp w) w))) by (apply call_data_inv; [apply prov_args_ok|exact H]).
+    destruct st; cbn; try (apply IH; exact H);
+      destruct (helper_connect sp c (prov_args sp w) w) as [w1 st1] eqn:E; cbn; apply IH; exact HC.
+  Qed.
+
+  Lemma loop_data_inv : forall fuel cs w, data_inv w -> data_inv (r_world (loop sp fuel cs w)).
+  Proof.
+    induction fuel as [|f IH]; intros cs w H; cbn; [exact H|].
+    pose proof (iter_data_inv cs 0 w H) as H'.
+    destruct (unconnected 0 (it_comps (iter sp 0 cs w))); cbn; [exact H'|].
+    destruct (it_new (iter sp 0 cs w)); cbn; [apply IH|]; exact H'.
+  Qed.
+
+  Lemma run_data_inv : forall cs, data_inv (r_world (connect_run sp cs)).
+  Proof. intros cs. apply loop_data_inv. apply init_data_inv. Qed.
+End InitData.
+
+Lemma helper_not_all_done : forall sp c w, all_done sp c w = false ->
+    exists it, In it (declared sp c) /\ done w it = false.
+Proof.
+  intros sp c w H.
+  assert (N : ~ (forall it, In it (declared sp c) -> done w it = true)).
+  { intros HA. apply all_done_spec in HA. congruence. }
+  assert (G : forall l, (forall it, In it l -> In it (declared sp c)) ->
+                        (exists it, In it l /\ done w it = false) \/ (forall it, In it l -> done w it = true)).
+  { induction l as [|x r IH]; intros Hl; [right; intros it []|].
+    destruct (done w x) eqn:E.
+    - destruct IH as [[it [Hi Hd]]|Hall]; [intros it Hi; apply Hl; right; exact Hi| |].
+      + left. exists it. split; [right; exact Hi|exact Hd].
+      + right. intros it [<-|Hi]; [exact E|apply Hall; exact Hi].
+    - left. exists x. split; [left; reflexivity|exact E]. }
+  destruct (G (declared sp c) (fun it H => H)) as [[it [Hi Hd]]|Hall]; [exists it; split; assumption|contradiction].
+Qed.
+
+Lemma stuck_idx_exact :
+  forall (sp : spec) (w : world) (cs : list comp) (n : nat),
+    In n (stuck_idx sp w 0 cs) <->
+    exists c, nth_error cs n = Some c /\ exists it, In it (declared sp c) /\ done w it = false.
+Proof.
+  intros sp w cs n. rewrite stuck_idx_spec. rewrite Nat.sub_0_r. split.
+  - intros [c [Hn [_ Hd]]]. exists c. split; [exact Hn|].
+    destruct (helper_not_all_done sp c w Hd) as [it H]. exists it. exact H.
+  - intros [c [Hn [it [Hin Hd]]]]. exists c. repeat split; [exact Hn|apply Nat.le_0_l|].
+    destruct (all_done sp c w) eqn:E; [|reflexivity].
+    rewrite (proj1 (all_done_spec sp c w) E it Hin) in Hd. discriminate.
+Qed.
+
+Lemma initial_data :
+  forall (sp : spec) (cs : list comp),
+    let w := r_world (connect_run sp cs) in
+    (forall o, o_dpushed (wo w o) = true ->
+               exists t p, o_hinfo (wo w o) = Some t
+                           /\ (exists ds, os_prov_data (sp_out sp o) = Some (ds, p))
+                           /\ o_data (wo w o) =
+                              (if (nconn sp o =? 0) then []
+                               else if os_static (sp_out sp o) then [(None, p)]
+                               else if (t =? sp_start sp)%Z then [(Some t, p)]
+                               else [(Some (sp_start sp), p); (Some t, p)]))
+    /\ (forall o, o_dpushed (wo w o) = false -> o_data (wo w o) = [])
+    /\ (forall i p, in_data (wi w i) = Some p ->
+                    exists ds, os_prov_data (sp_out sp (is_src (sp_in sp i))) = Some (ds, p)).
+Proof.
+  intros sp cs w. destruct (run_data_inv sp cs) as (_ & J2 & J3 & J4). fold w in J2, J3, J4.
+  split; [|split; [exact J2|exact J4]].
+  intros o Hd. destruct (J3 o Hd) as (t & p & Ht & Hp & Hdata). exists t, p. repeat split; assumption.
+Qed.
+
+Lemma connected_sound :
+  (forall (sp : spec) (c : comp) (a : args) (w w' : world),
+      helper_connect sp c a w = (w', CONNECTED) ->
+      forall it, In it (declared sp c) -> done w' it = true)
+  /\ (forall (sp : spec) (cs : list comp) (c : comp) (st : status),
+         In (c, st) (r_comps (connect_run sp cs)) -> st = CONNECTED ->
+         forall it, In it (declared sp c) -> done (r_world (connect_run sp cs)) it = true).
+Proof.
+  split.
+  - intros sp c a w w' H. exact (proj1 (proj1 (proj2 (progress_iff sp c a w w' CONNECTED H))) eq_refl).
+  - exact run_sound.
+Qed.
